@@ -21,6 +21,10 @@ from C02 import build_mirdump, build_mirgen_dump  # noqa: E402
 
 TOOLS = os.path.join(VERIF, "tools")
 LEVELS = {"quick": [0, 2], "thorough": [0, 1, 2, 3]}
+# The interpreter keeps MIR registers in `MIR_val_t frame[H_MAXREGS + 3]` and the lifted code its stack in e3_stack[288]; CBMC tracks
+# array elements individually (so that concrete values - loop counters, switch indices, addresses - stay concrete through a
+# store/load) only up to this size; default 64.  Measured on mir-tests/test14 f (switch): no verdict in 170 s -> 3 s.
+FS_FLAGS = ["--max-field-sensitivity-array-size", "320"]
 EVAL_BOUND = 200  # executed icode insns per eval() activation
 STATS = {"programs": 0, "skipped": [], "crashes": [], "groups": 0}
 
@@ -99,6 +103,8 @@ def prepare(tier, scratch):
                 defs = ["MIR_DIRECT_DISPATCH", 'C01_DUMP="%s"' % dump_h, 'E3_LIFTED="%s"' % lifted, 'C01_CASES="%s"' % cases_h]
                 if "buf_bytes" in g["opts"]:
                     defs.append("C01_BUF_BYTES=%d" % g["opts"]["buf_bytes"])
+                if "ext_calls" in g["opts"]:
+                    defs.append("H_MAX_EXT_CALLS=%d" % g["opts"]["ext_calls"])
                 if "maxregs" in g["opts"]:
                     defs.append("H_MAXREGS=%d" % g["opts"]["maxregs"])
                 smt = e["heavy"] or e["fp"]
@@ -106,7 +112,7 @@ def prepare(tier, scratch):
                                      cc=["-I" + TOOLS, "-I" + os.path.join(VERIF, "harness/E3"), "-I" + os.path.join(VERIF, "harness/C01")],
                                      unwindset={"memcpy.0": big // 8 + 2, "memcpy.1": big + 2, "memcmp.0": big + 2, "memset.0": big + 2, "memset.1": 8 * big, "c01_bytes_diff.0": big + 2},
                                      unwind=40, paths=True, object_bits=12, checks="functional", timeout=600,
-                                     solver="z3" if smt else None, flags=["--fpa"] if e["fp"] else [],
+                                     solver="z3" if smt else None, flags=FS_FLAGS + (["--fpa"] if e["fp"] else []),
                                      sample="%s at -O%d [%s]" % (e["sample"], level, g["source"]))))
         return res
 
